@@ -71,6 +71,7 @@ func (c19) Gen(r *rand.Rand, tier string, run int) *core.Case {
 		c.Params["break_addr"] = r.IntN(servers + 1)
 		c.Params["late"] = r.IntN(2)
 		c.Params["late_extra"] = r.IntN(3)
+		c.Params["restarts"] = []int{0, 0, 1, 2}[r.IntN(4)]
 		if c.Params["break"] == 0 {
 			c.Params["late"] = 1
 		}
@@ -260,7 +261,15 @@ func (c19) Run(c *core.Case, env *core.Env) {
 				name = fmt.Sprintf("Other%d", k)
 			}
 			zzsim.SetNode("server0")
-			_, err := dsrv.NewService(name, probe.ProbeObject(&ProbeImpl{Env: env, Obj: 77}))
+			svc, err := dsrv.NewService(name, probe.ProbeObject(&ProbeImpl{Env: env, Obj: 77}))
+			for n := 0; err == nil && n < c.P("restarts", 0) && name == "ProbeLate"; n++ {
+				// the service is restarted: gone and back under the same
+				// name before the session has digested the first news
+				if err = svc.Terminate(); err == nil {
+					svc, err = dsrv.NewService(name, probe.ProbeObject(&ProbeImpl{Env: env, Obj: 77}))
+				}
+				env.Probe("service-restarted")
+			}
 			zzsim.SetNode("harness")
 			if err != nil {
 				env.Violate("harness/setup", "late service: %v", err)
